@@ -35,7 +35,7 @@ ASSUMPTIONS = [
 ]
 COMPONENTS = {'real': ['MoleculeIterator', 'Fragment / NlaIIIFragment / CHICFragment (__eq__, umi_eq, match_hash)', 'Molecule / NlaIIIMolecule / CHICMolecule (add_fragment, write_tags)'] + tc.TAGGER_REAL,
               'stub': tc.TAGGER_STUB}
-REQUIRED_PROBES = ['cli_hamming0_with_near_umis', 'chain_with_separated_umis', 'api_run', 'preflagged_input', 'molecule_with_duplicates', 'overflow_molecule', 'umi_distance1_pair_present', 'chain_of_2plus_lifetimes', 'mode_switch_between_lifetimes', 'radius_gt0']
+REQUIRED_PROBES = ['api_run_with_ejection', 'cli_hamming0_with_near_umis', 'chain_with_separated_umis', 'api_run', 'preflagged_input', 'molecule_with_duplicates', 'overflow_molecule', 'umi_distance1_pair_present', 'chain_of_2plus_lifetimes', 'mode_switch_between_lifetimes', 'radius_gt0']
 
 
 def plan(tier):
@@ -66,6 +66,9 @@ def generate(seed, tier):
         api.append({'k': k, 'radius': 0, 'pooling': w.choice([0, 1]), 'cap': None})
     api.append({'k': w.choice([0, 1]), 'radius': w.choice([1, 5, 50]) if method == 'chic' else 0, 'pooling': 1, 'cap': None})
     api.append({'k': 0, 'radius': 0, 'pooling': w.choice([0, 1]), 'cap': w.choice([1, 2, 3])})
+    # the buffer actually ejecting (default cadence is 10 000 fragments): small cadence, cache radius well above fragment + read length (<= 340)
+    api.append({'k': 0, 'radius': w.choice([0, 0, 3]) if method == 'chic' else 0, 'pooling': 1, 'cap': None, 'eject': [w.choice([0, 1, 3, 7]), 1000]})
+    api.append({'k': 0, 'radius': 0, 'pooling': w.choice([0, 1]), 'cap': None, 'eject': [w.choice([0, 2, 5]), 1000]})
     s = st.schedule
     nlife = weighted(s, [(1, 2), (2, 4), (3, 3)])
     chain = []
@@ -163,6 +166,11 @@ def _api_layer(case, log, V, probe):
         margs = {}
         if cap:
             margs['max_associated_fragments'] = cap
+        extra_it = {}
+        if cfg.get('eject'):
+            extra_it['check_eject_every'] = cfg['eject'][0]
+            margs['cache_size'] = cfg['eject'][1]
+            probe('api_run_with_ejection')
 
         def source():
             for f in fs:
@@ -174,10 +182,10 @@ def _api_layer(case, log, V, probe):
                             r.set_tag('RC', f['dup'].get('RC', 3))
                             r.set_tag('af', 9)
                 yield (r1, r2)
-        ctx = {'layer': 'api', 'method': method, 'k': k, 'radius': radius, 'cap': cap, 'pooling': cfg['pooling'], 'preflag': preflag}
+        ctx = {'layer': 'api', 'method': method, 'k': k, 'radius': radius, 'cap': cap, 'pooling': cfg['pooling'], 'preflag': preflag, 'eject': cfg.get('eject')}
         try:
             it = MoleculeIterator(source(), molecule_class=mol_cls, fragment_class=frag_cls, fragment_class_args=fargs, molecule_class_args=margs,
-                                  pooling_method=cfg['pooling'], yield_invalid=True, yield_overflow=True, perform_qflag=False)
+                                  pooling_method=cfg['pooling'], yield_invalid=True, yield_overflow=True, perform_qflag=False, **extra_it)
             mols = []
             for m in it:
                 m.write_tags()
